@@ -475,6 +475,9 @@ def _finish(scn, rnd, tier):
                                           {"default": ["parameters"], "QActivation": ["activations"],
                                            "Activation": ["activations"]}])}
   scn["activation_bits"] = rnd.choice([4, 4, 5])
+  # one weight layer of the reference may be frozen (trainable = False survives model_quantize's JSON round trip)
+  wl = [l["name"] for l in scn["model"]["layers"] if l["cls"] in ("Dense", "Conv2D", "Conv1D", "DepthwiseConv2D")]
+  scn["frozen"] = [rnd.choice(wl)] if wl and scn["tune"] == "none" and rnd.random() < 0.35 else []
   return scn
 
 
@@ -574,7 +577,7 @@ def setup(ctx):
   ctx.state["delta_orig"] = orig
 
 
-def build_reference(spec):
+def build_reference(spec, frozen=()):
   import tensorflow as tf
   KL = tf.keras.layers
   inp = KL.Input(tuple(spec["input"]), name="inp")
@@ -588,6 +591,8 @@ def build_reference(spec):
       ins = ins[0]
     prev = layer(ins)
     tensors[ls["name"]] = prev
+    if ls["name"] in frozen:
+      layer.trainable = False       # a frozen (pre-trained) layer still occupies its bits
   m = tf.keras.Model(inp, prev)
   m.compile(optimizer="adam", loss="mse", metrics=["acc"])
   return m
@@ -953,7 +958,7 @@ def run_hp(case, ctx):
   scn = case["scn"]
   shard, nshards = case["shard"], case["nshards"]
   P = plan(scn)
-  ref = build_reference(scn["model"])
+  ref = build_reference(scn["model"], frozen=scn.get("frozen", ()))
   ffp = scn["ff"]
   ff = make_ff(scn)
   cfg_kind = "library_default" if scn["cfg"] == "library_default" else "small"
